@@ -2,8 +2,8 @@ from vdriver import Group
 META = {'level': 'proof'}
 def groups(tier):
     return [Group('parse.contract', 'stun', 'C33/parse.c', enforce='network__parse_stun_response', loop_contracts=True,
-                  unwind=17, unwind_by={'cxx_equal_u8': 13, 'cxx_strlen': 47, 'str_from_n': 47, 'cxx_memcpy': 17,
-                                        'network__parse_stun_response': 13},
+                  replace=['cxx_inet_ntop', 'str_from_cstr'],
+                  unwind=17, unwind_by={'cxx_equal_u8': 13, 'cxx_memcpy': 17, 'network__parse_stun_response': 13},
                   backend=['sat'], timeout=900, kind='unbounded',
                   clause='for every datagram (length <= 65535): no out-of-bounds read; a result implies Binding Success, matching '
                          'transaction id, a well-formed (XOR-)MAPPED-ADDRESS attribute inside the datagram, RFC 5389 decoding')]
